@@ -10,6 +10,8 @@ non-negative, vanish at the ends (Hann, Blackman) or are 6·10⁻⁵ there (Blac
 import RubatoProofs.Windows.Cutoff
 import RubatoProofs.Windows.Symmetry
 import RubatoModel.SincTable
+import RubatoModel.FftUnitModel
+import RubatoProofs.Lemmas.FormulaTie
 
 set_option linter.unusedSectionVars false
 set_option linter.unusedVariables false
@@ -73,5 +75,40 @@ open scoped Rubato.RealArith in
 theorem windows_are_one_at_centre (w : Window) (h : ℕ) (hh : 0 < h) :
     Win.make_window_at (ρ := ℝ) (σ := ℝ) w (2 * h) h = 1 :=
   WinProofs.window_centre w h hh
+
+/-! ### the synchronous (FFT) resamplers: model of `FftResampler::new` / `resample_unit` (`FftUnitModel.lean`, compared
+sample by sample with the crate in the correspondence run) -/
+
+/-- [law-free] every output-spectrum bin from `min(fft_in + 1, fft_out)` up to the Nyquist bin of the output transform is
+exactly zero, whatever the input block: content above the smaller Nyquist frequency never reaches the output transform -/
+theorem fft_bins_above_cut_are_zero {ρ σ : Type} [RNum ρ] [SNum ρ σ] (t : UnitTables σ) (waveIn : List σ) (k : ℕ)
+    (hk : (if t.fftIn < t.fftOut then t.fftIn + 1 else t.fftOut) ≤ k) (hk' : k ≤ t.fftOut) :
+    (t.spectrumOut (ρ := ρ) waveIn)[k]? = some (SNum.zero (ρ := ρ), SNum.zero (ρ := ρ)) :=
+  UnitTables.spectrumOut_zero_above (ρ := ρ) t waveIn k hk hk'
+
+/-- [law-free] the anti-aliasing filter of the FFT resamplers is the transform of `make_sincs(fft_in, 1, cutoff,
+BlackmanHarris2)[0] / (2·fft_in)` zero-padded to `2·fft_in` points (the padding is exactly zero) -/
+theorem fft_filter_is_the_padded_sinc_table {ρ σ : Type} [RNum ρ] [SNum ρ σ] [STrig σ] (cutoff : ρ) (fftIn fftOut : ℕ) :
+    (UnitTables.make (ρ := ρ) (σ := σ) cutoff fftIn fftOut).filterF =
+        rdft (ρ := ρ) (twiddles (ρ := ρ) (2 * fftIn)) (filterTaps (ρ := ρ) (σ := σ) cutoff fftIn) ∧
+    ∀ n, fftIn ≤ n → n < 2 * fftIn →
+      (filterTaps (ρ := ρ) (σ := σ) cutoff fftIn)[n]? = some (SNum.zero (ρ := ρ)) :=
+  ⟨UnitTables.make_filter (ρ := ρ) cutoff fftIn fftOut, fun n h1 h2 => filterTaps_padding (ρ := ρ) cutoff fftIn n h1 h2⟩
+
+/-- [exact] the cutoff handed to that table: `calculate_cutoff(min(fft_in, fft_out))·min(1, fft_out/fft_in)` -/
+theorem fft_effective_cutoff (c : ℕ → ℚ) (fi fo : ℕ) :
+    fftCutoff c fi fo = if fo < fi then c fo * (fo : ℚ) / (fi : ℚ) else c fi := by
+  unfold fftCutoff
+  simp only [Bridge.mul32_eq, Bridge.div32_eq, Bridge.ofNat32_eq, gt_iff_lt]
+
+/-- tie G7: the cutoff, the number of bins kept, the table arguments, the tap divisor and the padded length the three
+theorems above speak about are the statements of `FftResampler::new` / `resample_unit` as regenerated from synchro.rs in
+this run -/
+theorem fft_unit_is_the_source_text {ρ σ : Type} [RNum ρ] [SNum ρ σ] (c : ℕ → ρ) (t : UnitTables σ) (fi fo : ℕ) :
+    fftCutoff c fi fo = Formulas.fftUnit_cutoff fi fo c ∧
+    t.newLen = Formulas.fftUnit_new_len (ρ := ρ) t.fftIn t.fftOut ∧
+    Formulas.fftUnit_sinc_factor = 1 ∧ Formulas.fftUnit_window = Window.blackmanHarris2 ∧
+    Formulas.fftUnit_tap_divisor (ρ := ρ) fi = 2 * fi ∧ Formulas.fftUnit_filter_len (ρ := ρ) fi = 2 * fi :=
+  ⟨FormulaTie.fftUnit_cutoff ρ c fi fo, FormulaTie.fftUnit_new_len ρ t, rfl, rfl, rfl, rfl⟩
 
 end Rubato.C02
